@@ -597,6 +597,21 @@ language: JavaScript
 severity: error
 rule:
   pattern: console.log($A, $B)
+---
+id: console-in-some
+language: JavaScript
+severity: error
+message: a rule that applies to some of the files of a directory only (by file name)
+files: ['**/f*1.js', '**/f*4.js', '**/f*7.js', 'f*2.js']
+rule:
+  pattern: console.log($A)
+---
+id: foo-not-in-some
+language: JavaScript
+severity: warning
+ignores: ['**/f*0.js', '**/f*5.js', '**/d1/f*3.js']
+rule:
+  pattern: foo($A)
 "#;
 
 const RULES_WARN: &str = r#"id: warn-console
@@ -608,6 +623,14 @@ rule:
 id: hint-let
 language: JavaScript
 severity: hint
+rule:
+  pattern: let $V = $E
+---
+id: hint-let-in-some
+language: JavaScript
+severity: hint
+files: ['**/f*2.js', '**/f*3.js', '**/f*8.js']
+ignores: ['**/f*13.js']
 rule:
   pattern: let $V = $E
 "#;
